@@ -10,6 +10,7 @@
   margin": an exact multiple scores 0 < 1/4, every other row a positive value or +Inf (`bestLoopD_table`).
 -/
 import Gzx.Proofs.Row128Bridge
+import Gzx.Proofs.RowITFAsm
 import Gzx.Properties.C03
 namespace Gzx.Properties.C03Row128
 open Gzx Gzx.OneD Gzx.Row128
@@ -108,7 +109,107 @@ theorem code128_row_read_write_rendered (T : Tables) (hT : wfRow128B T.code128 =
     hm1
   exact ⟨_, out, renderRow_padded mods width margin (by omega), hout, htext⟩
 
+/-! ### ITF -/
+
+/-- Clause "ITF: even digit strings of the reader's accepted lengths 6,8,..,14 and >14 up to 80 … read(write(c)) == c",
+    FULL on the row-decoder model (Gzx/Model/OneDRowITF.lean: decodeStart with skipWhiteSpace / findGuardPattern /
+    narrowLineWidth / validateQuietZone, decodeEnd on the REVERSED row trying the 2x end pattern first, decodeMiddle with
+    RecordPattern of ten runs, the split into bars and spaces, decodeDigit best match over the twenty reader patterns with
+    the equal-variance rule, the length rule), exact interpretation, at every scale `s ≥ 1` and EVERY quiet zone
+    `lq, rq ≥ 0` (validateQuietZone only demands the pixels that exist), for every ALLOWED_LENGTHS value admitting the
+    length: the row is read back as exactly `contents`, result points = end of the start pattern / start of the end
+    pattern.  Table hypothesis `wfRowITFB` (decidable; per-run obligation): reader start = writer start; reader rows
+    10..19 = the writer's patterns; the twenty reader rows pairwise non-proportional, five positive widths; the writer's
+    end pattern reversed scores below 0.38 against the reader's first (2x) reversed end pattern. -/
+theorem itf_row_read_write (Tw : Tables) (Tr : RowITF.ItfT) (hWF : RowITF.wfRowITFB Tw Tr = true) (contents : List Nat)
+    (hdig : CheckDigit.allDigits contents = true) (heven : contents.length % 2 = 0) (hlen : contents.length ≤ 80)
+    (allowed : Option (List Int)) (hok : RowITF.lengthOK (allowed.getD Tr.defaultAllowed) contents.length = true)
+    (lq s rq : Nat) (hs : 1 ≤ s) :
+    ∃ mods, itfModules Tw contents = .ok mods ∧
+      RowITF.decodeRow exactDom Tr (paddedRow lq s rq mods) allowed =
+        .ok { text := contents, p0 := lq + s * OneD.sumL Tw.itfStart,
+              p1 := (paddedRow lq s rq mods).length - (rq + s * OneD.sumL Tw.itfEnd) } := by
+  have hsym : itfSymbols contents = .ok (digitVals contents) := by
+    rw [Properties.C03.itf_writer_rejects]
+    have : ¬ (contents.length % 2 ≠ 0 ∨ contents.length > 80 ∨ CheckDigit.allDigits contents = false) := by
+      simp [heven, hdig]; omega
+    rw [if_neg this]
+  have hdl : (digitVals contents).length = contents.length := by simp [digitVals]
+  obtain ⟨mods, hdraw, hdec⟩ := RowITF.itf_row_core Tw Tr hWF (digitVals contents) (digitVals_lt contents hdig)
+    (by rw [hdl]; exact heven) allowed (by rw [hdl]; exact hok) lq s rq (by omega)
+  refine ⟨mods, ?_, ?_⟩
+  · simp only [itfModules, hsym, bind, Except.bind]
+    exact hdraw
+  · rw [hdec]
+    have : (digitVals contents).map (48 + ·) = contents := by
+      have h1 := digitVals_roundtrip contents hdig
+      have h2 : (digitVals contents).map (48 + ·) = (digitVals contents).map (· + 48) := by
+        apply List.map_congr_left; intro a _; omega
+      rw [h2, h1]
+    rw [this]
+
+/-- the reader's default list admits every even length from 6 on -/
+theorem itf_default_lengths (n : Nat) (h6 : 6 ≤ n) (heven : n % 2 = 0) : RowITF.lengthOK [6, 8, 10, 12, 14] n = true := by
+  by_cases h14 : n ≤ 14
+  · have : n = 6 ∨ n = 8 ∨ n = 10 ∨ n = 12 ∨ n = 14 := by omega
+    rcases this with rfl | rfl | rfl | rfl | rfl <;> decide
+  · have h1 : ¬ ((n : Int) = 6) := by omega
+    have h2 : ¬ ((n : Int) = 8) := by omega
+    have h3 : ¬ ((n : Int) = 10) := by omega
+    have h4 : ¬ ((n : Int) = 12) := by omega
+    have h5 : ¬ ((n : Int) = 14) := by omega
+    simp [RowITF.lengthOK, RowITF.lengthLoop, h1, h2, h3, h4, h5]
+    omega
+
+/-- through the writer's own rendering: at EVERY requested width and EVERY margin ≥ 0 the rendered row of an accepted
+    content of 6..80 digits is read back (no hint) -/
+theorem itf_row_read_write_rendered (Tw : Tables) (Tr : RowITF.ItfT) (hWF : RowITF.wfRowITFB Tw Tr = true)
+    (hdef : Tr.defaultAllowed = [6, 8, 10, 12, 14]) (contents : List Nat)
+    (hdig : CheckDigit.allDigits contents = true) (heven : contents.length % 2 = 0) (h6 : 6 ≤ contents.length)
+    (hlen : contents.length ≤ 80) (width margin : Nat) :
+    ∃ mods row out, itfModules Tw contents = .ok mods ∧ renderRow mods width margin = .ok row ∧
+      RowITF.decodeRow exactDom Tr row none = .ok out ∧ out.text = contents := by
+  have hok : RowITF.lengthOK ((none : Option (List Int)).getD Tr.defaultAllowed) contents.length = true := by
+    simp only [Option.getD_none, hdef]; exact itf_default_lengths _ h6 heven
+  obtain ⟨mods, hm, _⟩ := itf_row_read_write Tw Tr hWF contents hdig heven hlen none hok 0 1 0 (by omega)
+  -- the symbol has at least the start and end patterns
+  have hmlen : 0 < mods.length := by
+    obtain ⟨_, hst, _, _⟩ := RowITF.wfRowITF_facts Tw Tr hWF
+    have hwf := (RowITF.wfRowITF_facts Tw Tr hWF).1
+    have hdraw := RowITF.itfDraw_runs Tw hwf (digitVals contents) (digitVals_lt contents hdig)
+    have hsym : itfSymbols contents = .ok (digitVals contents) := by
+      rw [Properties.C03.itf_writer_rejects]
+      have : ¬ (contents.length % 2 ≠ 0 ∨ contents.length > 80 ∨ CheckDigit.allDigits contents = false) := by
+        simp [heven, hdig]; omega
+      rw [if_neg this]
+    simp only [itfModules, hsym, bind, Except.bind, hdraw] at hm
+    cases hm
+    simp only [WFITF, Bool.and_eq_true, beq_iff_eq, decide_eq_true_eq, List.all_eq_true] at hwf
+    obtain ⟨⟨⟨⟨⟨⟨_, _⟩, _⟩, hsl⟩, hsp⟩, _⟩, _⟩ := hwf
+    rw [length_appendPattern, sumL_append, sumL_append]
+    have : 0 < OneD.sumL Tw.itfStart := sumL_pos _ (by intro e; rw [e] at hsl; simp at hsl) (fun x hx => by simpa using hsp x hx)
+    omega
+  have hfw : 0 < mods.length + margin := by omega
+  have hm1 : 1 ≤ max width (mods.length + margin) / (mods.length + margin) :=
+    (Nat.le_div_iff_mul_le hfw).mpr (by rw [Nat.one_mul]; exact Nat.le_max_right _ _)
+  obtain ⟨mods', hm', hdec⟩ := itf_row_read_write Tw Tr hWF contents hdig heven hlen none hok
+    ((max width (mods.length + margin) - mods.length * (max width (mods.length + margin) / (mods.length + margin))) / 2)
+    (max width (mods.length + margin) / (mods.length + margin))
+    (max width (mods.length + margin)
+      - (max width (mods.length + margin) - mods.length * (max width (mods.length + margin) / (mods.length + margin))) / 2
+      - mods.length * (max width (mods.length + margin) / (mods.length + margin)))
+    hm1
+  rw [hm] at hm'
+  cases hm'
+  exact ⟨mods, _, _, hm, renderRow_padded mods width margin (by omega), hdec, rfl⟩
+
 /-! ### non-vacuity and evaluated instances -/
+example : RowITF.wfRowITFB refTables RowITF.refItfT = true := by decide +kernel
+/-- "123456" at 3 px/module with no quiet zone at all -/
+example : (itfModules refTables (CheckDigit.digitBytes [1, 2, 3, 4, 5, 6])).bind
+    (fun m => (RowITF.decodeRow exactDom RowITF.refItfT (paddedRow 0 3 0 m) none).map (·.text))
+    = .ok (CheckDigit.digitBytes [1, 2, 3, 4, 5, 6]) := by decide +kernel
+
 example : wfRow128B refTables.code128 = true := by decide +kernel
 /-- "A1234a" (code sets B, C, B) at 2 px/module, no left quiet zone at all, 1 white pixel on the right -/
 example : (code128Modules refTables [65, 49, 50, 51, 52, 97] none).bind
